@@ -217,8 +217,8 @@ def instantiate(hyps, ground, max_inst=400):
             else:
                 continue
         else:
-            if nv > 4 or h.num_patterns() > 0:
-                continue        # pattern-annotated hypotheses are instantiated by E-matching only
+            if nv > 4:
+                continue
             if others is None:
                 others = sorted_terms(ground)
             cands = []
@@ -343,8 +343,12 @@ def light(e, kind, ch, memo):
     return None
 
 
+_MEMO = {}
+
+
 def norm(f):
-    return rewrite(f)
+    # one memo per process run of prepare(): instances share most of their subterms
+    return rewrite(f, _MEMO)
 
 
 def to_smt2(hyps, neg_goal):
@@ -357,6 +361,7 @@ def to_smt2(hyps, neg_goal):
 
 def prepare(ob):
     """-> list of sub-problems: dict(full=smt2, ground=smt2)"""
+    _MEMO.clear()
     subs = []
     hyps0 = [h for h in flatten_and([norm(h) for h in flatten_and(ob.hyps)]) if not z3.is_true(h)]
     if ob.expect == "sat":
@@ -449,7 +454,7 @@ def solve_sub(sub, expect="unsat", thorough=False):
     ground_model = None
     ground_sat = False
     if has_ground:
-        r0, m0 = z3api("ground", "z3-5.1/ground-instances", 2500, want_model=True)
+        r0, m0 = z3api("ground", "z3-5.1/ground-instances", 6000, want_model=True)
         if r0 == "unsat":
             return done("unsat", "z3-5.1/ground-instances")
         if r0 == "sat":
@@ -488,8 +493,17 @@ def solve_sub(sub, expect="unsat", thorough=False):
     return done("unknown", "-", ground_model, candidate=ground_model is not None)
 
 
-def _work(args):
-    idx, subs, expect = args
+_OBS = []
+
+
+def _work(idx):
+    # runs in a forked worker: the obligation (z3 terms) is inherited through the fork, preparation happens here in parallel
+    ob = _OBS[idx]
+    expect = ob.expect
+    try:
+        subs = prepare(ob)
+    except Exception as e:
+        return idx, [{"status": "error", "backend": "-", "time": 0.0, "model": None, "log": [("prepare-error", repr(e), 0)]}]
     results = []
     for sub in subs:
         try:
@@ -501,9 +515,9 @@ def _work(args):
 
 def discharge(obligations, procs=None):
     """Fills ob.result for every obligation."""
-    jobs = []
-    for i, ob in enumerate(obligations):
-        jobs.append((i, prepare(ob), ob.expect))
+    global _OBS
+    _OBS = list(obligations)
+    jobs = list(range(len(_OBS)))
     procs = procs or int(os.environ.get("PYVC_PROCS", "12"))
     if procs <= 1 or len(jobs) <= 1:
         res = [_work(j) for j in jobs]
